@@ -1375,10 +1375,17 @@ class Engine:
         ev = self.event("call", str(name), recv, args, kwargs, node, res)
         may_raise = self.contract.callee_may_raise(name)
         if may_raise and not self._assume_safety and (self.exc_stack or self.contract.has_xposts() or self.contract.track_raises):
-            idx = self.decide([None, None])
-            if idx == 1:
+            # an unknown callee may raise any exception: one alternative per exception class an enclosing handler
+            # names (so that every `except` arm is explored) plus the generic class
+            classes = [may_raise if isinstance(may_raise, str) else "Exception"]
+            for handlers in self.exc_stack:
+                for h in handlers:
+                    if h is not None and h not in classes:
+                        classes.append(h)
+            idx = self.decide([None] * (1 + len(classes)))
+            if idx >= 1:
                 self.event("raise-from", str(name), recv, args, kwargs, node, None)
-                raise RaiseExc(may_raise if isinstance(may_raise, str) else "Exception", (), node)
+                raise RaiseExc(classes[idx - 1], (), node)
         if short not in getattr(self.contract, "frame_preserving", ()):
             self.ghost["heapver"] = self.ghost.get("heapver", 0) + 1
         return res
